@@ -142,10 +142,18 @@ class SmtpRelayClient(RelayPoolClient):
         if auth.is_error():
             raise SmtpRelayError.factory(auth)
 
+    @current_command(b'[TLS]')
+    def _encrypt(self):
+        assert self.client is not None
+        # A server that accepts the connection and never starts the TLS
+        # handshake must not hold the attempt.
+        with Timeout(self.command_timeout):
+            self.client.encrypt(self.context)
+
     def _handshake(self):
         assert self.client is not None
         if self.tls_immediately:
-            self.client.encrypt(self.context)
+            self._encrypt()
             self._banner()
             self._ehlo()
         else:
